@@ -21,9 +21,9 @@ META = dict(
     rule='unit = one lens word; evaluation = one traced fan compared surface by surface with the bookkeeping model; '
          'non-trivial = some ray loses intensity and some ray keeps some; distinct = rounded image intensities',
     exhaustive=True,
-    bounds=dict(quick='words depth<=2 over 10 symbols + depth 3 over 7; 3 fields x 25 pupil points x 2 wavelengths; '
+    bounds=dict(quick='words depth<=3 over 10 symbols (1110 lenses); 3 fields x 25 pupil points x 2 wavelengths; '
                       'SpotDiagram / Wavefront / Optic.trace intensity arrays on depth<=2',
-                thorough='depth<=3 over 10 symbols, 4 numeric variants'),
+                thorough='depth 4 over 6 symbols added, 4 numeric variants'),
     tolerances=dict(intensity='1e-9 relative', aperture_edge='rays within 1e-9 mm of an aperture edge are not judged'),
     assumptions=['reference frames of vmc.ref.geom', 'extinction of catalogue media from a fresh Material.k (C18)'],
 )
@@ -54,9 +54,9 @@ def alphabet(v):
 def units(tier, variant):
     A = alphabet(variant)
     if tier == 'quick':
-        ws = list(LZ.words(A, 1, 2)) + list(LZ.words(A[:7], 3, 3))
-    else:
         ws = list(LZ.words(A, 1, 3))
+    else:
+        ws = list(LZ.words(A, 1, 3)) + list(LZ.words(A[:6], 4, 4))
     return [dict(word=list(w), variant=variant) for w in ws]
 
 
